@@ -7,7 +7,7 @@ From PV.Gen Require Import GenConst GenFun.
 From PV.Model Require Import Names Checksums Pack Alloc Codec Eltorito Account AccountLinks AccountBoot.
 From PV.Proofs Require Import PackProofs AllocProofs ChecksumsArithProofs AccountLemmas AccountProofs
      AccountLinksLemmas AccountLinksPurge AccountLinksInv EltoritoCatalogProofs EltoritoBuiltProofs
-     AccountBootLemmas AccountBootInv AccountBootInv2 AccountBootProofs.
+     AccountBootLemmas AccountBootInv AccountBootInv2 AccountBootFix AccountBootProofs.
 Import ListNotations.
 Local Open Scope Z_scope.
 Ltac Zify.zify_post_hook ::= Z.to_euclidean_division_equations.
@@ -40,7 +40,7 @@ Proof.
   intros HI Hw Hb s'.
   assert (HI' : BInv s') by (apply ab_step_preserves_inv, HI).
   pose proof (bi_space s HI) as E. pose proof (bi_space s' HI') as E'.
-  subst s'. revert HI' E'. unfold bstep. rewrite Hw. unfold bstep_rm_eltorito. rewrite Hb. cbv zeta.
+  subst s'. revert HI' E'. unfold bstep, bstep_gen. rewrite Hw. unfold bstep_rm_eltorito. rewrite Hb. cbv zeta.
   cbn [fst snd bl bboot bbits lroot linodes lspace lptr_size lptr_ext boot2]. intros HI' E'.
   rewrite Hb in E. cbn [boot2] in E.
   pose proof (bi_cat s HI) as HC. rewrite Hb in HC. destruct HC as (C1 & C2 & _ & _).
@@ -102,10 +102,11 @@ Proof.
   { pose proof (ab_step_preserves_inv s (BAddEltorito bp cd cn ls pf bit efi m ba sg) HI) as H.
     rewrite Hstep in H. exact H. }
   pose proof (bi_space s HI) as E. pose proof (bi_space s1 HI1) as E1. rewrite Hb in E. cbn [boot2] in E.
-  revert Hstep. unfold bstep. rewrite Hw. unfold bstep_add_eltorito, brefuse. cbv zeta. rewrite Hb.
+  revert Hstep. unfold bstep, bstep_gen. rewrite Hw. unfold bstep_add_eltorito, brefuse. cbv zeta. rewrite Hb.
   destruct (m =? 2); [discriminate|].
   destruct (lsubtree bp (lroot (bl s))) as [[fn i fs|dn dl kids]|]; try discriminate.
   destruct (has_ino i (linodes (bl s))) eqn:Hin; cbn [negb]; [|discriminate].
+  destruct (true && (len_of i (linodes (bl s)) =? 0)); [discriminate|].
   destruct (cat_new _ _ _ _ _ _) as [c|]; [|discriminate].
   destruct (snd (add_record (bl s) cd cn (lnext (bl s)) (linodes (bl s)) (C + C))) eqn:Hacc; [|discriminate].
   intros H. injection H as Hs1.
@@ -131,16 +132,19 @@ Definition nCAT2 : ident := [67; 65; 84; 50; 46; 59; 49].               (* CAT2.
 Definition nD : ident := [68].                                          (* D *)
 Definition el_plain (bp : path) : bop := BAddEltorito bp [] nCAT None 0 false false 0 true 0.
 
-(* (a) "the entry points at the boot file's OWN data": a zero-length boot file gets the extent of
-   whatever comes next -- another file's data, or the first sector AFTER the volume.
-   Reproduced on the library: /var/tmp/accountboot/repro_empty_bootfile_alias.py (after reopening,
-   the El Torito entry is attached to the other file) and repro_empty_bootfile_last.py (pycdlib
-   cannot open the image it wrote). *)
-Theorem ab_load_rba_own_extent_refuted :
-  (exists ops i j, let s := brun binit ops in
+(* Witnesses (a), (b), (e) are about the code BEFORE commits d8f44b3 / 6a3f4a5 / 4476941
+   ([brun_gen false]); each is followed by what the current code does on the same input. *)
+
+(* (a) old code: "the entry points at the boot file's OWN data" was false: a zero-length boot file
+   got the extent of whatever came next -- another file's data, or the first sector AFTER the
+   volume.  Reproduced (before d8f44b3): /var/tmp/accountboot/repro_empty_bootfile_alias.py (after
+   reopening, the entry was attached to the other file), repro_empty_bootfile_last.py (the written
+   image could not be opened).  Current code: ab_load_rba_own_extent (AccountBootProofs.v). *)
+Theorem ab_load_rba_own_extent_refuted_old :
+  (exists ops i j, let s := brun_gen false binit ops in
      bwreck s = false /\ (exists b, bboot s = Some b /\ In i (binos b)) /\ i <> j /\
      len_of j (linodes (bl s)) <> 0 /\ ino_extent s i = ino_extent s j /\ ino_extent s i <> None) /\
-  (exists ops, let s := brun binit ops in
+  (exists ops, let s := brun_gen false binit ops in
      bwreck s = false /\ entry_rbas s = [lspace (bl s)]).
 Proof.
   split.
@@ -150,25 +154,52 @@ Proof.
   - exists [BAddFile [] nBOOT 0; el_plain [nBOOT]]. vm_compute. split; reflexivity.
 Qed.
 
-(* (b) "a refused operation leaves the object unchanged": add_eltorito attaches the boot info table
-   to the file BEFORE its remaining checks; a call refused later (here: the sector count does not
-   fit in 16 bits) leaves it there, and the file's bytes 8..63 are overwritten in every image written
-   afterwards.  Reproduced: /var/tmp/accountboot/repro_refused_bit.py *)
-Theorem ab_refused_unchanged_refuted :
-  exists ops o, let s := brun binit ops in
-    snd (bstep s o) = Late /\ bwreck (fst (bstep s o)) = false /\
-    bbits s = [] /\ bbits (fst (bstep s o)) = [1%nat] /\
-    (* the file is not a boot file *)
-    erefs 1 (bboot (fst (bstep s o))) = 0.
+Theorem ab_empty_boot_file_refused s bp cd cn ls pf bit efi m ba sg fn i st :
+  lsubtree bp (lroot (bl s)) = Some (LFile fn i st) -> len_of i (linodes (bl s)) = 0 ->
+  bstep s (BAddEltorito bp cd cn ls pf bit efi m ba sg) = (s, Ref).
+Proof.
+  intros Hsub Hlen. unfold bstep, bstep_gen, brefuse. destruct (bwreck s); [reflexivity|].
+  unfold bstep_add_eltorito, brefuse. cbv zeta. rewrite Hsub, Hlen.
+  destruct (m =? 2); [reflexivity|]. destruct (negb (has_ino i (linodes (bl s)))); reflexivity.
+Qed.
+
+(* (b) old code: "a refused operation leaves the object unchanged" was false for a section-adding
+   add_eltorito(boot_info_table=True): the table was attached BEFORE the remaining checks and
+   stayed on a file that is not a boot file (bytes 8..63 overwritten in every later image).
+   Reproduced (before 6a3f4a5): /var/tmp/accountboot/repro_refused_bit.py.  Current code:
+   ab_refused_unchanged_unless_first_call, ab_bits_on_boot_files. *)
+Theorem ab_refused_unchanged_refuted_old :
+  exists ops o, let s := brun_gen false binit ops in
+    snd (bstep_gen false s o) = Late /\ bwreck (fst (bstep_gen false s o)) = false /\
+    bbits s = [] /\ bbits (fst (bstep_gen false s o)) = [1%nat] /\
+    erefs 1 (bboot (fst (bstep_gen false s o))) = 0 /\
+    (* the current code on the same input: refused, nothing changed *)
+    bstep (brun binit ops) o = (brun binit ops, Ref).
 Proof.
   exists [BAddFile [] nBOOT 2048; BAddFile [] nA 100; el_plain [nBOOT]],
          (BAddEltorito [nA] [] nCAT (Some 70000) 0 true false 0 true 0).
   vm_compute. repeat split; reflexivity.
 Qed.
 
-(* ... the strongest true form is ab_refused_unchanged (outcome Ref); and the boot info tables that
-   are attached belong to boot files as long as no call has been refused late *)
-Definition ab_refused_unchanged_partial := ab_refused_unchanged.
+Definition ab_refused_unchanged_partial := ab_refused_unchanged_gen.
+
+(* (e) old code: add_hard_link(iso_old_path=<a name of the boot catalog>) made a record without
+   inode that the catalog did not know: no extent (write_fp raised TypeError), and rm_eltorito left
+   the name behind.  Reproduced (before 4476941): /var/tmp/accountboot/repro_link_from_catalog_name.py.
+   Current code: the new name is a catalog name and goes with rm_eltorito. *)
+Theorem ab_link_from_catalog_name_refuted_old :
+  exists ops, let nL : ident := [76; 46; 59; 49] in
+    let old := brun_gen false binit ops in let cur := brun binit ops in
+    (* old: the record L.;1 (number 2) is not a catalog record and survives rm_eltorito *)
+    (exists b, bboot old = Some b /\ cat_recs b = [1%nat]) /\
+    lrecords [] (lroot (bl (fst (bstep_gen false old BRmEltorito)))) = [([], nBOOT, 0%nat); ([], nL, 2%nat)] /\
+    (* current: it is a catalog record and rm_eltorito removes it *)
+    (exists b, bboot cur = Some b /\ cat_recs b = [1%nat; 2%nat]) /\
+    lrecords [] (lroot (bl (fst (bstep cur BRmEltorito)))) = [([], nBOOT, 0%nat)].
+Proof.
+  exists [BAddFile [] nBOOT 3000; el_plain [nBOOT]; BAddLink [nCAT] [] [76; 46; 59; 49]].
+  vm_compute. repeat split; try reflexivity; eexists; split; reflexivity.
+Qed.
 
 (* (c) a first add_eltorito that fails after self.brs.append (duplicate catalog name, bad sector
    count / load segment / media name / platform id, bad catalog path) leaves the object unusable:
@@ -216,7 +247,7 @@ Proof.
   { pose proof (ab_step_preserves_inv s (BAddEltorito bp cd cn ls pf bit efi m ba sg) HI) as H.
     rewrite Hstep in H. exact H. }
   assert (Hw1 : bwreck s1 = false).
-  { revert Hstep. unfold bstep. rewrite Hw. unfold bstep_add_eltorito, brefuse. cbv zeta. rewrite Hb.
+  { revert Hstep. unfold bstep, bstep_gen. rewrite Hw. unfold bstep_add_eltorito, brefuse. cbv zeta. rewrite Hb.
     repeat match goal with |- context [match ?x with _ => _ end] => destruct x end;
       intros H; inversion H; try reflexivity; exact Hw. }
   destruct (ab_rm_eltorito_exact s1 b1 HI1 Hw1 A3) as (_ & _ & _ & _ & _ & _ & _ & R & _).
@@ -232,13 +263,13 @@ Definition ab_ex_ops : list bop :=
    BAddEltorito [nA] [] nCAT None 0 false true 0 true 0;              (* a second (EFI) section *)
    BAddEltorito [nA] [] nCAT (Some 70000) 0 false false 0 true 0;     (* refused *)
    BAddFile [] nZ 100;
-   BAddEltorito [nZ] [] nCAT (Some 70000) 0 true false 0 true 0;      (* refused LATE: Z keeps a table *)
+   BAddEltorito [nZ] [] nCAT (Some 70000) 0 true false 0 true 0;      (* refused, nothing changed (6a3f4a5) *)
    BRmFile [nD] nBOOT; BRmFile [] nCAT;                                (* both refused *)
    BRmLink [nD] nBOOT;                                                 (* hidden boot file *)
    BRmDir [nD]; BAddCatLink [] nCAT2; BRmLink [] nCAT;
    BRmEltorito;                                                        (* 32 -> 28: BR, catalog, 2 hidden blocks *)
    BRmFile [] nA;                                                      (* accepted again *)
-   BAddFile [] nCAT 10; BAddFile [] nB 0;
+   BAddFile [] nCAT 10; BAddFile [] nB 1;
    el_plain [nB]].                                                     (* duplicate catalog name: wrecked *)
 
 Example ab_ex_history :
@@ -247,20 +278,20 @@ Example ab_ex_history :
      (1, [28; 20; 2; 4096; 1; 2; -1; 0; 0], 28, -1, [], [(25, 3)]);
      (1, [30; 20; 2; 4096; 2; 2; -1; 0; 0], 30, -1, [], [(25, 3); (28, 2)]);
      (1, [32; 20; 2; 4096; 2; 3; 0; 1; 1], 32, 26, [27], [(29, 3); (27, 2)]);
-     (1, [32; 20; 2; 4096; 2; 3; 1; 1; 1], 32, 26, [30; 27], [(27, 3); (30, 2)]);
-     (0, [32; 20; 2; 4096; 2; 3; 1; 1; 1], 32, 26, [30; 27], [(27, 3); (30, 2)]);
-     (1, [33; 20; 2; 4096; 3; 3; 1; 1; 1], 33, 26, [30; 27], [(27, 3); (30, 2); (32, 1)]);
-     (2, [33; 20; 2; 4096; 3; 3; 1; 2; 1], 33, 26, [30; 27], [(27, 3); (30, 2); (32, 1)]);
-     (0, [33; 20; 2; 4096; 3; 3; 1; 2; 1], 33, 26, [30; 27], [(27, 3); (30, 2); (32, 1)]);
-     (0, [33; 20; 2; 4096; 3; 3; 1; 2; 1], 33, 26, [30; 27], [(27, 3); (30, 2); (32, 1)]);
-     (1, [33; 20; 2; 4096; 3; 3; 1; 2; 1], 33, 26, [30; 27], [(27, 3); (30, 2); (32, 1)]);
-     (1, [32; 10; 2; 2048; 3; 3; 1; 2; 1], 32, 25, [29; 26], [(26, 3); (29, 2); (31, 1)]);
-     (1, [32; 10; 2; 2048; 3; 3; 1; 2; 2], 32, 25, [29; 26], [(26, 3); (29, 2); (31, 1)]);
-     (1, [32; 10; 2; 2048; 3; 3; 1; 2; 1], 32, 25, [29; 26], [(26, 3); (29, 2); (31, 1)]);
-     (1, [28; 10; 2; 2048; 2; 2; -1; 1; 0], 28, -1, [], [(24, 3); (27, 1)]);
-     (1, [25; 10; 2; 2048; 1; 2; -1; 1; 0], 25, -1, [], [(24, 1)]);
-     (1, [26; 10; 2; 2048; 2; 2; -1; 1; 0], 26, -1, [], [(25, 1); (24, 1)]);
-     (1, [26; 10; 2; 2048; 3; 2; -1; 1; 0], 26, -1, [], [(25, 1); (24, 1)]);
+     (1, [32; 20; 2; 4096; 2; 3; 1; 1; 1], 32, 26, [ 30; 27], [(27, 3); (30, 2)]);
+     (0, [32; 20; 2; 4096; 2; 3; 1; 1; 1], 32, 26, [ 30; 27], [(27, 3); (30, 2)]);
+     (1, [33; 20; 2; 4096; 3; 3; 1; 1; 1], 33, 26, [ 30; 27], [(27, 3); (30, 2); (32, 1)]);
+     (0, [33; 20; 2; 4096; 3; 3; 1; 1; 1], 33, 26, [ 30; 27], [(27, 3); (30, 2); (32, 1)]);
+     (0, [33; 20; 2; 4096; 3; 3; 1; 1; 1], 33, 26, [ 30; 27], [(27, 3); (30, 2); (32, 1)]);
+     (0, [33; 20; 2; 4096; 3; 3; 1; 1; 1], 33, 26, [ 30; 27], [(27, 3); (30, 2); (32, 1)]);
+     (1, [33; 20; 2; 4096; 3; 3; 1; 1; 1], 33, 26, [ 30; 27], [(27, 3); (30, 2); (32, 1)]);
+     (1, [32; 10; 2; 2048; 3; 3; 1; 1; 1], 32, 25, [ 29; 26], [(26, 3); (29, 2); (31, 1)]);
+     (1, [32; 10; 2; 2048; 3; 3; 1; 1; 2], 32, 25, [ 29; 26], [(26, 3); (29, 2); (31, 1)]);
+     (1, [32; 10; 2; 2048; 3; 3; 1; 1; 1], 32, 25, [ 29; 26], [(26, 3); (29, 2); (31, 1)]);
+     (1, [28; 10; 2; 2048; 2; 2; -1; 0; 0], 28, -1, [], [(24, 3); (27, 1)]);
+     (1, [25; 10; 2; 2048; 1; 2; -1; 0; 0], 25, -1, [], [(24, 1)]);
+     (1, [26; 10; 2; 2048; 2; 2; -1; 0; 0], 26, -1, [], [(25, 1); (24, 1)]);
+     (1, [27; 10; 2; 2048; 3; 2; -1; 0; 0], 27, -1, [], [(26, 1); (25, 1); (24, 1)]);
      (2, [], -1, -1, [], [])] /\
   (* after the 5th operation: PVD 16, boot record 17, terminator 18, version 19, path tables 20 and
      22, root 24, D 25, catalog 26, A's data 27..29 (the EFI entry), BOOT's data 30..31 *)
@@ -277,8 +308,8 @@ Example ab_ex_history :
     [([], nA, 0%nat); ([], nCAT2, 4%nat); ([], nZ, 3%nat)] /\
   lrecords [] (lroot (bl (brun binit (firstn 15 ab_ex_ops)))) = [([], nA, 0%nat); ([], nZ, 3%nat)] /\
   linodes (bl (brun binit (firstn 15 ab_ex_ops))) = [(0%nat, 5000); (3%nat, 100)] /\
-  (* the boot info table left on Z by the refused call is still there at the end *)
-  bbits (brun binit ab_ex_ops) = [3%nat] /\ bwreck (brun binit ab_ex_ops) = true.
+  (* no boot info table is left anywhere; the last call has wrecked the object *)
+  bbits (brun binit ab_ex_ops) = [] /\ bwreck (brun binit ab_ex_ops) = true.
 Proof. vm_compute. repeat split; reflexivity. Qed.
 
 Example ab_ex_history_inv :
@@ -288,8 +319,10 @@ Proof. split; [apply ab_run_inv|vm_compute; reflexivity]. Qed.
 Print Assumptions ab_rm_eltorito_exact.
 Print Assumptions ab_rm_eltorito_exact_run.
 Print Assumptions ab_add_eltorito_first_space.
-Print Assumptions ab_load_rba_own_extent_refuted.
-Print Assumptions ab_refused_unchanged_refuted.
+Print Assumptions ab_load_rba_own_extent_refuted_old.
+Print Assumptions ab_empty_boot_file_refused.
+Print Assumptions ab_refused_unchanged_refuted_old.
+Print Assumptions ab_link_from_catalog_name_refuted_old.
 Print Assumptions ab_late_refusal_wrecks.
 Print Assumptions ab_add_rm_eltorito_inverse_refuted.
 Print Assumptions ab_add_rm_eltorito_inverse_partial.
